@@ -95,6 +95,50 @@ def children(specs: List[Dict[str, Any]], seeds: List[int], n: int) -> Dict[int,
     return out
 
 
+def plancore_suite(ctx: Ctx, sessions: List[Any]) -> None:
+    """Function-level tie of the planner core: the real `run_feature_group` (levels + required sets) on the features of each
+    feature-group class of real link-free plans, against `PlanCore.planCore` on the buckets the real grouping produced."""
+    from mloda.core.prepare.execution_plan import ExecutionPlan
+    from mloda.core.core.step.feature_group_step import FeatureGroupStep
+
+    reqs, impls = [], []
+    for spec, sess in sessions:
+        plan = list(sess.engine.execution_planner)
+        direct = {c: set(ps) for c, ps in sess.engine.feature_link_parents.items()}
+
+        def closure(u: Any, acc: set) -> set:
+            for p_ in direct.get(u, ()):
+                if p_ not in acc:
+                    acc.add(p_)
+                    closure(p_, acc)
+            return acc
+
+        by_cls: Dict[Any, set] = {}
+        for st in plan:
+            if isinstance(st, FeatureGroupStep):
+                by_cls.setdefault(st.feature_group, set()).update(st.features.features)
+        ids: Dict[Any, int] = {}
+
+        def rid(u: Any) -> int:
+            return ids.setdefault(u, len(ids))
+
+        for cls, feats in by_cls.items():
+            mapping = {f.uuid: closure(f.uuid, set()) for f in feats}
+            ep = ExecutionPlan(None, None)
+            buckets_real = ep.group_features_by_compute_framework_and_options(set(feats))
+            steps = ep.run_feature_group((cls, set(feats)), dict(mapping), set())
+            impl = sorted([sorted(rid(f.uuid) for f in st.features.features), sorted(rid(u) for u in st.required_uuids)] for st in steps.values())
+            buckets = [[rid(f.uuid) for f in b] for b in buckets_real.values()]
+            anc = [[rid(u), sorted(rid(a) for a in al)] for u, al in mapping.items()]
+            reqs.append({"op": "C04.planCore", "buckets": buckets, "anc": anc})
+            impls.append(impl)
+            ctx.case("planCore", {"buckets": buckets, "anc": anc}, len(impl) >= 2, steps=len(impl))
+    for rq, im, o in zip(reqs, impls, ctx.lean.batch(reqs)):
+        model = sorted([sorted(st["outs"]), sorted(st["req"])] for st in o.get("steps", []))
+        if model != im:
+            ctx.disagree("planCore", rq, im, model)
+
+
 def run_in_child(spec: Dict[str, Any], limit: float) -> str:
     """Run one request in SYNC mode in a child process that is killed when it does not end (a spinning main loop never sleeps)."""
     p = subprocess.Popen(["/venv/bin/python", str(VERIF / "harness" / "c04_child.py")], stdin=subprocess.PIPE, stdout=subprocess.PIPE, stderr=subprocess.DEVNULL, text=True,
@@ -167,6 +211,7 @@ def run(ctx: Ctx) -> None:
             exp = outs[0]["_exp"]
             lean_reqs.append({"op": "C04.planCheck", **S.lean_plan(exp)})
             metas.append((spec, exp, outs[0]["_sess"]))
+    plancore_suite(ctx, [(spec, sess) for spec, exp, sess in metas if "groups" in spec])
     # structural validation of every accepted plan by the Lean checker
     louts = ctx.lean.batch(lean_reqs)
     runnable = []
